@@ -902,27 +902,56 @@ func C13(c *Ctx) {
 	c.R.Check(okType, "C13-R4", "Compile: unknown branching type rejected", c.P.Pos(compile.Pos()), "a type equal to none of the compared constants can only reach an error return", "an unknown branching type is accepted at compile time")
 	// unknown interpreter
 	okInt := false
-	ssau.Instrs(asCompile, func(in ssa.Instruction) {
-		cl, isC := in.(*ssa.Call)
-		if !isC || !cl.Common().IsInvoke() || cl.Common().Method.Name() != "Find" {
-			return
+	asClosure := pkgClosure(asCompile)
+	// handedUp: an error return of fn reaches the caller of ActionSource.Compile (fn is Compile itself, or a helper
+	// with one call site whose error result is handed on, helper by helper)
+	handedUp := func(fn *ssa.Function) bool {
+		for depth := 0; fn != asCompile; depth++ {
+			sites := callSitesOf(fn, asClosure)
+			if len(sites) != 1 || depth > 3 {
+				return false
+			}
+			cl, isCl := sites[0].(*ssa.Call)
+			if !isCl {
+				return false
+			}
+			var errv ssa.Value = cl
+			if tup, isT := cl.Type().(*types.Tuple); isT {
+				errv = callResults(cl)[tup.Len()-1]
+			}
+			if !errPropagated(cl.Parent(), errv) {
+				return false
+			}
+			fn = cl.Parent()
 		}
-		for _, r := range throughVar(cl) {
-			if bo, ok := r.(*ssa.BinOp); ok && ssau.IsNilConst(bo.Y) {
-				for _, r2 := range ssau.Referrers(bo) {
-					if iff, ok := r2.(*ssa.If); ok {
-						s := iff.Block().Succs[0]
-						if bo.Op == token.NEQ {
-							s = iff.Block().Succs[1]
-						}
-						if returnsErr(s, nil) {
-							okInt = true
+		return true
+	}
+	for _, g := range asClosure {
+		if g.Parent() != nil {
+			continue // a function literal runs later, not at compile time
+		}
+		ssau.Instrs(g, func(in ssa.Instruction) {
+			cl, isC := in.(*ssa.Call)
+			if !isC || !cl.Common().IsInvoke() || cl.Common().Method.Name() != "Find" {
+				return
+			}
+			for _, r := range throughVar(cl) {
+				if bo, ok := r.(*ssa.BinOp); ok && ssau.IsNilConst(bo.Y) {
+					for _, r2 := range ssau.Referrers(bo) {
+						if iff, ok := r2.(*ssa.If); ok {
+							s := iff.Block().Succs[0]
+							if bo.Op == token.NEQ {
+								s = iff.Block().Succs[1]
+							}
+							if returnsErr(s, nil) && handedUp(g) {
+								okInt = true
+							}
 						}
 					}
 				}
 			}
-		}
-	})
+		})
+	}
 	c.R.Check(okInt, "C13-R4", "ActionSource.Compile: unknown interpreter rejected", c.P.Pos(asCompile.Pos()), "nil interpreter returns an error", "an unknown interpreter is accepted at compile time")
 	// ... and "known" means registered under exactly that name: the registry's lookup is keyed by the name it is given,
 	// and ActionSource.Compile asks for the name the action carries
@@ -1109,6 +1138,13 @@ func errChecked(fn *ssa.Function, call *ssa.Call, b *ssa.BasicBlock) bool {
 					if d == errv {
 						match = true
 					}
+				}
+			}
+			if !match {
+				// a named result that go/ssa keeps in memory (`if err = write(); err == nil {`): the load sees the call's
+				// error when the store of it is the only one that can reach the load
+				if defs, zero, isCell := reachingCellDefs(bo.X); isCell && !zero && len(defs) == 1 && defs[0].v == errv {
+					match = true
 				}
 			}
 			if match && ((bo.Op == token.EQL && f.True) || (bo.Op == token.NEQ && !f.True)) {
